@@ -18,6 +18,11 @@ Static rules (DESIGN.md §C09):
  reinit-reset     reset()/build() of the numint mixin clear every generator kept across calls, and the Kohn-Sham
                   wrapper reaches those hooks on every path (the reuse tests are identity tests on objects that
                   PySCF modifies in place)
+ cache-clobber    a method of a generator that is neither the producer nor the consumer of a produce/consume pair does not
+                  refill (directly or through callees: slot-store summaries) the keyed caches the producer fills for the
+                  consumer, unless it restores the slot or invalidates the consumer
+ stale-identity   a kept generator built from mol / grids (objects PySCF rebuilds in place) is keyed on data derived
+                  from them (derived objects' identity or a content snapshot), not on the identity of the container
  cache-mutate     an intermediate that one method saves on the object for a later one (self._cache[spin],
                   self._cached_ao_data, ...) is not updated in place by a reader, through any alias or view
  cache-alias      a value stored into keyed per-object state that outlives the call (self._cache[spin] = ...,
@@ -425,6 +430,7 @@ def rule_hidden_write(chk):
                 chk.ok(rid, "%s:%s(%s) not written" % (f.rel, f.qual, p), nontrivial=p in f.array_evidence)
     rule_cache_alias(chk, P)
     rule_cache_mutate(chk, P)
+    rule_cache_clobber(chk, P)
     return P
 
 
@@ -582,6 +588,104 @@ def _guarded_constructions(fn, params):
     return out
 
 
+# -- comparisons made by a reuse test, followed into the predicate helpers it calls ---------------------------
+MUTABLE_IN_PLACE = {"mol", "grids"}   # PySCF rebuilds these objects in place (Mole.build/set_geom_, Grids.build)
+CMP_CALLS = {"array_equal", "allclose", "array_equiv", "isclose"}
+
+
+def _find_helper(mod, name):
+    c = [pf.methods(cl)[name] for cl in mod.classes.values() if name in pf.methods(cl)]
+    return c[0] if len(c) == 1 else None
+
+
+def _expr_roots(e, env):
+    """{(base name, first attribute or None, derived?)}: where the value of e comes from"""
+    if e is None:
+        return set()
+    if isinstance(e, ast.Name):
+        return set(env.get(e.id, {(e.id, None, False)}))
+    if isinstance(e, (ast.Attribute, ast.Subscript)):
+        out = set()
+        for b, a, d in _expr_roots(e.value, env):
+            attr = a if a is not None else (e.attr if isinstance(e, ast.Attribute) else None)
+            out.add((b, attr, True))
+        return out
+    if isinstance(e, ast.Call):
+        out = set()
+        for x in list(e.args) + [k.value for k in e.keywords]:
+            out |= _expr_roots(x, env)
+        if isinstance(e.func, ast.Attribute):
+            out |= _expr_roots(e.func.value, env)
+        return out
+    if isinstance(e, (ast.Tuple, ast.List)):
+        out = set()
+        for x in e.elts:
+            out |= _expr_roots(x, env)
+        return out
+    if isinstance(e, ast.Starred):
+        return _expr_roots(e.value, env)
+    return set()
+
+
+def _local_env(fn, env0):
+    """flow-insensitive roots of the locals of a (small) predicate helper"""
+    env = dict(env0)
+    for _ in range(3):
+        for n in pf.walk_no_nested(fn):
+            if isinstance(n, ast.Assign) and len(n.targets) == 1:
+                t, v = n.targets[0], n.value
+                if isinstance(t, ast.Name):
+                    env[t.id] = env.get(t.id, set()) | _expr_roots(v, env)
+                elif isinstance(t, ast.Tuple):
+                    vs = v.elts if isinstance(v, ast.Tuple) and len(v.elts) == len(t.elts) else [v] * len(t.elts)
+                    for a, b in zip(t.elts, vs):
+                        if isinstance(a, ast.Name):
+                            env[a.id] = env.get(a.id, set()) | _expr_roots(b, env)
+            elif isinstance(n, ast.For):
+                it = n.iter
+                tg = n.target.elts if isinstance(n.target, ast.Tuple) else [n.target]
+                if isinstance(it, ast.Call) and pf.call_name(it) == "zip" and len(it.args) == len(tg):
+                    srcs = it.args
+                else:
+                    srcs = [it] * len(tg)
+                for a, b in zip(tg, srcs):
+                    if isinstance(a, ast.Name):
+                        env[a.id] = env.get(a.id, set()) | {(x, y, True) for x, y, _d in _expr_roots(b, env)}
+    return env
+
+
+def _compares(mod, expr, env, depth=0):
+    """[(roots of one side, roots of the other side, node)] of every comparison `expr` evaluates, also inside the
+    predicate helpers (self._mol_changed(mol), self._nldfgen_is_stale(...)) it calls"""
+    out = []
+    for n in ast.walk(expr):
+        if isinstance(n, ast.Compare) and len(n.ops) == 1:
+            out.append((_expr_roots(n.left, env), _expr_roots(n.comparators[0], env), n))
+        elif isinstance(n, ast.Call) and (pf.call_name(n) or "").split(".")[-1] in CMP_CALLS and len(n.args) >= 2:
+            out.append((_expr_roots(n.args[0], env), _expr_roots(n.args[1], env), n))
+        elif isinstance(n, ast.Call) and pf.is_self_attr(n.func) and depth < 3:
+            h = _find_helper(mod, n.func.attr)
+            if h is None:
+                continue
+            hp = [a.arg for a in h.args.args[1:]]
+            henv = {"self": {("self", None, False)}}
+            for i, a in enumerate(n.args):
+                if i < len(hp):
+                    henv[hp[i]] = _expr_roots(a, env)
+            for k in n.keywords:
+                if k.arg in hp:
+                    henv[k.arg] = _expr_roots(k.value, env)
+            henv = _local_env(h, henv)
+            for st in pf.walk_no_nested(h):
+                if isinstance(st, (ast.If, ast.While)):
+                    out += _compares(mod, st.test, henv, depth + 1)
+                elif isinstance(st, ast.Return) and st.value is not None:
+                    out += _compares(mod, st.value, henv, depth + 1)
+                elif isinstance(st, ast.Assign):
+                    out += [c for c in _compares(mod, st.value, henv, depth + 1)]
+    return out
+
+
 def _reinit_definitions(prog, mod):
     """-> [(class defining the method, fn, [super() chains: the definitions that follow it in the MRO of each
     class through which it is reached])]; definitions are found through the MRO, so moving the method into a
@@ -605,10 +709,25 @@ def _reinit_definitions(prog, mod):
     return [defs[k] for k in order]
 
 
+def _inlined_definitions(prog, mod):
+    """the definitions with the private helper methods they call as statements inlined (the generator may be built
+    in `_initialize_nldf_generator`); predicate helpers inside conditions stay calls and are followed by _compares"""
+    from sa import hinline
+    defs = _reinit_definitions(prog, mod)
+    allc = list(prog.all_classes())
+    inl = {}
+    for cls, fn, _ch in defs:
+        ctx = next((K for _m, K in allc if not any(
+            c2 is not K and any(cc is K for _, cc in prog.mro(m3, c2)) for m3, c2 in allc)
+            and any(cc is cls for _, cc in prog.mro(_m, K))), cls)
+        inl[id(fn)] = hinline.inline_helpers(fn, hinline.class_resolver(prog, mod, ctx), depth=2)
+    return [(cls, inl[id(fn)], [[inl.get(id(f), f) for f in ch] for ch in chains]) for cls, fn, chains in defs]
+
+
 def rule_reinit(chk):
     prog = pf.Program(chk.tree, [NUMINT])
     mod = prog.module(NUMINT)
-    definitions = _reinit_definitions(prog, mod)
+    definitions = _inlined_definitions(prog, mod)
     if not definitions:
         raise core.AnalysisError("no class of %s defines %s" % (NUMINT, REINIT_METHOD))
     chk.count("definitions of initialize_feature_generators", len(definitions))
@@ -634,19 +753,31 @@ def rule_reinit(chk):
             if not ors:
                 raise core.AnalysisError("%s: reuse condition of self.%s not understood: %s" % (
                     fq, gen_attr, pf.src(guard.test)))
-            # (a) every constructor input is compared with recorded state
+            # (a) every constructor input is compared with recorded state (also inside predicate helpers)
             compared = {}
-            for t in ors:
-                neg = False
-                while isinstance(t, ast.UnaryOp) and isinstance(t.op, ast.Not):
-                    t, neg = t.operand, not neg
-                if isinstance(t, ast.Compare) and len(t.ops) == 1 and (
-                        (not neg and isinstance(t.ops[0], (ast.NotEq, ast.IsNot)))
-                        or (neg and isinstance(t.ops[0], (ast.Eq, ast.Is)))):
-                    l, r = t.left, t.comparators[0]
-                    for a, b in ((l, r), (r, l)):
-                        if pf.base_name(b) in params and pf.base_name(a) == "self":
-                            compared[pf.base_name(b)] = a
+            derived_cmp = set()
+            state_reads = set()
+            env0 = {"self": {("self", None, False)}}
+            for p_ in params:
+                env0[p_] = {(p_, None, False)}
+            cmps = []
+            for t in ors + ands:
+                cmps += _compares(mod, t, env0)
+            none_test = False
+            for ra, rb, node in cmps:
+                for a_, b_ in ((ra, rb), (rb, ra)):
+                    selfs = [x for x in a_ if x[0] == "self"]
+                    for x in selfs:
+                        if x[1]:
+                            state_reads.add(x[1])
+                    for pb in b_:
+                        if pb[0] in params and selfs:
+                            compared.setdefault(pb[0], set()).update(x[1] for x in selfs if x[1])
+                            if pb[2]:
+                                derived_cmp.add(pb[0])
+                if isinstance(node, ast.Compare) and isinstance(node.comparators[0], ast.Constant) \
+                        and node.comparators[0].value is None and pf.is_self_attr(node.left, gen_attr):
+                    none_test = True
             for p in sorted(used):
                 inst = "%s:%s reuse of self.%s compares %s" % (NUMINT, fq, gen_attr, p)
                 if p in compared:
@@ -658,12 +789,29 @@ def rule_reinit(chk):
                                   "%s): a later call with a different %s silently reuses the stale object" % (
                                       gen_attr, ctor_src, ", ".join(sorted(used)), p,
                                       " or ".join(pf.src(t) for t in ors), p), instance=inst)
-            none_test = any(isinstance(t, ast.Compare) and pf.src(t) == "self.%s is None" % gen_attr for t in ors)
             if none_test:
                 chk.ok("reinit", "%s:%s first use of self.%s" % (NUMINT, fq, gen_attr), nontrivial=False)
             else:
                 chk.violation("reinit", NUMINT, fq, "self.%s is None" % gen_attr, guard.lineno,
                               "the reuse condition does not test `self.%s is None`" % gen_attr)
+            # (a'') a kept object built from a container that PySCF modifies in place is keyed on data derived from it
+            for p in sorted(used & MUTABLE_IN_PLACE):
+                inst = "%s:%s reuse of self.%s is keyed on data derived from %s" % (NUMINT, fq, gen_attr, p)
+                if p not in compared:
+                    continue  # already reported above
+                if p in derived_cmp:
+                    chk.ok("stale-identity", inst)
+                else:
+                    chk.violation("stale-identity", NUMINT, fq, "reuse condition of self.%s: identity of %s" % (gen_attr, p),
+                                  guard.lineno,
+                                  "self.%s is built from %s (`%s(%s)`) and kept across calls, but the reuse test only "
+                                  "compares the %s object itself (%s); PySCF rebuilds this object IN PLACE (%s), so the "
+                                  "test never fires and the generator built for the old contents is reused. Key it on "
+                                  "the derived data (identity of the derived objects or a snapshot of the contents)" % (
+                                      gen_attr, p, ctor_src, ", ".join(pf.src(a) for a in asg.value.args), p,
+                                      " or ".join(sorted({pf.src(n_) for _a, _b, n_ in cmps if any(x[0] == p for x in _a | _b)}))[:120],
+                                      "mol.set_geom_ / mol.build change _atm/_bas/_env" if p == "mol" else
+                                      "grids.build() creates a new grids_indexer and new coords"), instance=inst)
             # (a') the reuse test is evaluated on the state left by the PREVIOUS call: nothing it reads may be
             # (re)assigned, directly or through the super() chain / a self-helper, before it is evaluated
             if isinstance(guard.test, ast.Name):
@@ -674,7 +822,11 @@ def rule_reinit(chk):
             g_cfg = cfgm.CFG(fn)
             for ev_st in evals:
                 expr = ev_st.test if isinstance(ev_st, ast.If) else ev_st.value
-                reads = sorted({x.attr for x in ast.walk(expr) if pf.is_self_attr(x) and isinstance(x.ctx, ast.Load)})
+                reads = {x.attr for x in ast.walk(expr) if pf.is_self_attr(x) and isinstance(x.ctx, ast.Load)
+                         and not isinstance(pf.parent(x), ast.Call)}
+                if any(isinstance(x, ast.Call) and pf.is_self_attr(x.func) for x in ast.walk(expr)):
+                    reads |= state_reads
+                reads = sorted(reads)
                 en = g_cfg.node_of(ev_st)
                 if en is None:
                     raise core.AnalysisError("%s: cannot place the reuse test in the CFG" % fq)
@@ -702,21 +854,52 @@ def rule_reinit(chk):
                                           batch.head_text(culprit)[:80], attr, pf.src(expr)[:80], attr, gen_attr),
                                       instance=inst)
             # (b) what was compared is recorded on every normal path (here or in the super() chain)
-            for p, state in sorted(compared.items()):
-                if not pf.is_self_attr(state):
-                    continue  # state kept inside the object itself (self.<gen>.plan.nspin)
-                attr = state.attr
-                if attr == gen_attr:
+            for p, attrs in sorted(compared.items()):
+                for attr in sorted(attrs):
+                    if attr == gen_attr:
+                        continue  # state kept inside the object itself (self.<gen>.plan.nspin)
+                    inst = "%s:%s records self.%s = %s" % (NUMINT, fq, attr, p)
+                    if all(_assigns_on_all_paths(mod, fn, attr, p, ch) for ch in chains):
+                        chk.ok("reinit", inst)
+                    else:
+                        chk.violation("reinit", NUMINT, fq, "self.%s = %s" % (attr, p), fn.lineno,
+                                      "the reuse condition compares self.%s with %s, but self.%s is not updated on every "
+                                      "path of this method (nor by the super() call): the comparison is made against a "
+                                      "stale or never-set value, so a changed %s is not (or always) detected" % (
+                                          attr, p, attr, p), instance=inst)
+            # (b') what is recorded for the test is also compared by it: a snapshot `self.A = (p.x, p.y, p.z)` read by
+            # the reuse test must have every recorded component of p compared, else a change confined to the
+            # uncompared component is never noticed
+            cmp_attrs = {}
+            for ra, rb, _node in cmps:
+                for side in (ra, rb):
+                    for b_, a_, d_ in side:
+                        if b_ in params and d_ and a_:
+                            cmp_attrs.setdefault(b_, set()).add(a_)
+            rec_attrs = {}
+            for f2 in [fn] + [f3 for ch in chains for f3 in ch]:
+                for n_ in pf.walk_no_nested(f2):
+                    if isinstance(n_, ast.Assign) and any(pf.is_self_attr(t_) and t_.attr in state_reads
+                                                          and t_.attr != gen_attr for t_ in n_.targets):
+                        tattr = [t_.attr for t_ in n_.targets if pf.is_self_attr(t_)][0]
+                        for x in ast.walk(n_.value):
+                            if isinstance(x, ast.Attribute) and isinstance(x.value, ast.Name) and x.value.id in params:
+                                rec_attrs.setdefault((x.value.id, tattr), set()).add(x.attr)
+            for (p, tattr), rec in sorted(rec_attrs.items()):
+                if p not in used or p not in cmp_attrs:
                     continue
-                inst = "%s:%s records self.%s = %s" % (NUMINT, fq, attr, p)
-                if all(_assigns_on_all_paths(mod, fn, attr, p, ch) for ch in chains):
-                    chk.ok("reinit", inst)
+                missing = sorted(rec - cmp_attrs[p])
+                inst = "%s:%s reuse test of self.%s compares every component of %s recorded in self.%s" % (
+                    NUMINT, fq, gen_attr, p, tattr)
+                if missing:
+                    chk.violation("reinit", NUMINT, fq, "self.%s records %s.%s that the reuse test of self.%s never compares" % (
+                        tattr, p, "/".join(missing), gen_attr), guard.lineno,
+                        "the snapshot self.%s records %s of %s, the reuse test compares only %s: a change of %s.%s alone "
+                        "(same %s) is never detected and the stale self.%s is reused" % (
+                            tattr, ", ".join(sorted(rec)), p, ", ".join(sorted(cmp_attrs[p])), p, "/".join(missing),
+                            ", ".join(sorted(cmp_attrs[p])), gen_attr), instance=inst)
                 else:
-                    chk.violation("reinit", NUMINT, fq, "self.%s = %s" % (attr, p), fn.lineno,
-                                  "the reuse condition compares self.%s with %s, but self.%s is not updated on every "
-                                  "path of this method (nor by the super() call): the comparison is made against a "
-                                  "stale or never-set value, so a changed %s is not (or always) detected" % (
-                                      attr, p, attr, p), instance=inst)
+                    chk.ok("reinit", inst)
             follow = [st.value for st in guard.body if isinstance(st, ast.Expr) and isinstance(st.value, ast.Call)
                       and pf.base_name(st.value.func) == "self"]
             info[(cname, gen_attr)] = (gen_attr, ctor_src, follow, fn)
@@ -756,12 +939,9 @@ def rule_reinit_reset(chk):
     what invalidates the generators after such a change is the reset()/build() chain.  So: (i) the numint
     reset/build hooks clear every generator attribute that initialize_feature_generators keeps across calls, on
     every path; (ii) the Kohn-Sham wrapper's reset/build reach the numint hook on every path."""
-    mod = pf.Module(chk.tree, NUMINT)
+    prog0 = pf.Program(chk.tree, [NUMINT])
     kept = set()
-    for cls in mod.classes.values():
-        fn = pf.methods(cls).get(REINIT_METHOD)
-        if fn is None:
-            continue
+    for cls, fn, _chains in _inlined_definitions(prog0, prog0.module(NUMINT)):
         for asg, guard, used in _guarded_constructions(fn, [a.arg for a in fn.args.args[1:]]):
             if guard is not None:
                 kept.add(asg.targets[0].attr)
@@ -885,8 +1065,13 @@ def _assigns_on_all_paths(mod, fn, attr, param, chain, _depth=0):
         st = n.ast
         if n.kind != "stmt":
             return False
-        if isinstance(st, ast.Assign) and isinstance(st.value, ast.Name) and st.value.id == param:
-            if any(pf.is_self_attr(t, attr) for t in st.targets):
+        if isinstance(st, ast.Assign) and any(pf.is_self_attr(t, attr) for t in st.targets):
+            if any(isinstance(x, ast.Name) and x.id == param for x in ast.walk(st.value)):
+                return True
+            # `if p is None: self.attr = None`: the recorded state still follows the parameter
+            if isinstance(st.value, ast.Constant) and st.value.value is None and any(
+                    param in {x.id for x in ast.walk(t_) if isinstance(x, ast.Name)}
+                    for t_, _pol, _k in cfgm.conditions_at(st)):
                 return True
         if isinstance(st, ast.Assign) and isinstance(st.value, ast.Tuple) and len(st.targets) == 1 \
                 and isinstance(st.targets[0], ast.Tuple) and len(st.targets[0].elts) == len(st.value.elts):
@@ -1640,6 +1825,73 @@ def rule_cache_mutate(chk, P):
 
 
 # ----------------------------------------------------------------------------
+# rule cache-clobber: only the producer of a produce/consume pair refills the keyed caches the consumer reads
+# ----------------------------------------------------------------------------
+GEN_PAIRS = [(GEN, "LCAONLDFGenerator", "get_features", "get_potential"),
+             (SDMX, "EXXSphGenerator", "get_features", "get_vxc_")]
+
+
+def _call_closure(P, f):
+    """functions reachable from f along strongly resolved calls (f included)"""
+    seen, todo = {f.key: f}, [f]
+    while todo:
+        g = todo.pop()
+        for n in ast.walk(g.node):
+            if isinstance(n, ast.Call):
+                for callee, strong, _r in P.resolve(n, g):
+                    if strong and callee.key not in seen:
+                        seen[callee.key] = callee
+                        todo.append(callee)
+    return seen
+
+
+def rule_cache_clobber(chk, P):
+    for rel, cname, prod, cons in GEN_PAIRS:
+        fp = P.funcs.get((rel, "%s.%s" % (cname, prod)))
+        fc = P.funcs.get((rel, "%s.%s" % (cname, cons)))
+        if fp is None or fc is None:
+            r1 = ks.locate(P.tree, rel, "%s.%s" % (cname, prod))
+            r2 = ks.locate(P.tree, rel, "%s.%s" % (cname, cons))
+            fp = P.funcs.get((r1[0], pf.qualname(r1[1])))
+            fc = P.funcs.get((r2[0], pf.qualname(r2[1])))
+            if fp is None or fc is None:
+                raise core.AnalysisError("%s: %s / %s lie outside the analysed modules" % (cname, prod, cons))
+        slots = {root for (root, key), kinds in fp.slot_stores.items() if "fill" in kinds and key and not key.startswith("const:")}
+        chk.count("keyed caches filled by %s.%s" % (cname, prod), len(slots))
+        if not slots:
+            chk.ok("cache-clobber", "%s:%s.%s fills no keyed cache" % (rel, cname, prod), nontrivial=False)
+            continue
+        exempt = set(_call_closure(P, fp)) | set(_call_closure(P, fc))
+        cls = fp.cls
+        classes = {id(c) for c in _related_classes(P, cls)}
+        for g in sorted(P.funcs.values(), key=lambda x: x.key):
+            if g.cls is None or id(g.cls) not in classes or g.outer is not None or g.key in exempt \
+                    or g.node.name == "__init__":
+                continue
+            hits = sorted((root, key) for (root, key), kinds in g.slot_stores.items() if "fill" in kinds and root in slots)
+            inst = "%s:%s leaves the caches of %s/%s alone" % (g.rel, g.qual, prod, cons)
+            if not hits:
+                chk.ok("cache-clobber", inst)
+                continue
+            # invalidation: the method also empties the generator's own per-key cache, so the consumer refuses to run
+            own = {root for root in slots if root.count(".") == 1}
+            invalidated = any(root in own and kinds == {"clear"} for (root, key), kinds in g.slot_stores.items())
+            bad = [h for h in hits if h not in g.slot_restores]
+            if not bad or invalidated:
+                chk.ok("cache-clobber", inst + (" (saved and restored)" if not bad else " (consumer invalidated)"))
+                continue
+            for root, key in bad:
+                kt = key.split(":", 1)[1] if key else "?"
+                chk.violation("cache-clobber", g.rel, g.qual, "%s[%s]" % (root, kt), g.node.lineno,
+                              "%s (directly or through its callees) refills the keyed cache %s[%s], which %s.%s fills for a "
+                              "later %s.%s; %s is neither of them and neither restores the slot nor invalidates the "
+                              "pending %s: after %s -> %s -> %s the potential is built from caches of two different "
+                              "densities" % (g.qual, root, kt, cname, prod, cname, cons, g.node.name, cons, prod,
+                                             g.node.name, cons),
+                              instance="%s:%s refills %s[%s]" % (g.rel, g.qual, root, kt))
+
+
+# ----------------------------------------------------------------------------
 # rule memo-invalidate: a memoised attribute is reset by every method that changes what it was computed from
 # ----------------------------------------------------------------------------
 def _self_loads(prog, mod, cls, fn, skip=(), _seen=None):
@@ -1737,7 +1989,9 @@ def _analyse_rules(chk):
     chk.rule("reinit", "generator reuse compares every constructor input, records it, siblings prepare alike")
     chk.rule("ctor-roundtrip", "NLDFAuxiliaryPlan.new feeds back raw constructor arguments")
     chk.rule("chunk-loop", "KernelEvaluator chunk loop covers [0,N) and accumulates")
+    chk.rule("stale-identity", "kept generators built from mol / grids are keyed on data derived from them, not on object identity")
     chk.rule("reinit-reset", "reset()/build() clear the kept generators and are reached from the KS wrapper on every path")
+    chk.rule("cache-clobber", "only the producer refills the keyed caches its consumer reads, unless the slot is restored or the consumer invalidated")
     chk.rule("cache-mutate", "intermediates saved by one method for a later one are not updated in place by their readers")
     chk.rule("cache-alias", "values stored into keyed per-object state do not alias a reusable instance buffer")
     chk.rule("kernel-input-write", "hidden-write restricted to ciderpress/models (kernel inputs X, Y are not mutated)")
@@ -1755,6 +2009,8 @@ def _analyse_rules(chk):
     chk.floor("cache-typestate", 8, "11 consume sites + spin forwarding in the generator")
     chk.floor("hidden-write", 350, "non-buffer parameters of the dft/pyscf API entry points incl. constructors")
     chk.floor("kernel-input-write", 100, "non-buffer parameters of the kernels.py / dft_kernel.py entry points")
+    chk.floor("cache-clobber", 2, "other methods of the NLDF generator (and the SDMX generator pair)")
+    chk.floor("stale-identity", 3, "sdmxgen/mol, nldfgen/mol, nldfgen/grids")
     chk.floor("cache-mutate", 4, "readers of the generators' / plans' saved intermediates")
     chk.floor("cache-alias", 8, "8 keyed stores + the per-object scratch buffers")
     chk.floor("reinit", 8, "3 classes x (inputs compared, recorded, sibling preparation)")
@@ -1825,10 +2081,10 @@ def mutants(tree):
                "        super().initialize_feature_generators(mol, grids, nspin)\n\n\nclass NLDFNLOFNumInt",
                expect="reinit"),
         Mutant("drop nspin from the reuse condition", NUMINT,
-               "        cond = cond or self.mol != mol\n        cond = cond or self.nldfgen.plan.nspin != nspin\n        if cond:\n            self.nldfgen = self.nldf_init.initialize_nldf_generator(\n                mol, grids.grids_indexer, nspin\n            )\n            self.nldfgen.interpolator",
-               "        cond = cond or self.mol != mol\n        if cond:\n            self.nldfgen = self.nldf_init.initialize_nldf_generator(\n                mol, grids.grids_indexer, nspin\n            )\n            self.nldfgen.interpolator",
-               expect="reinit"),
-        Mutant("sdmx generator reused for another molecule", NUMINT, "        cond = cond or self.mol != mol\n        cond = cond or self.sdmxgen.plan.nspin != nspin",
+               "        return self._mol_changed(mol) or self.nldfgen.plan.nspin != nspin\n",
+               "        return self._mol_changed(mol)\n", expect="reinit"),
+        Mutant("sdmx generator reused for another molecule", NUMINT,
+               "        cond = cond or self._mol_changed(mol)\n        cond = cond or self.sdmxgen.plan.nspin != nspin",
                "        cond = cond or self.sdmxgen.plan.nspin != nspin", expect="reinit"),
         Mutant("mol no longer recorded by the mixin", NUMINT,
                "            self.sdmxgen = self.sdmx_init.initialize_sdmx_generator(mol, nspin)\n        self.mol = mol\n",
@@ -1880,8 +2136,8 @@ def mutants(tree):
         Mutant("super() hook runs before the reuse test (NLDFNLOFNumInt)", NUMINT, "", "", fn=_super_first,
                expect="reinit"),
         Mutant("molecule recorded before the sdmx reuse test", NUMINT,
-               "        cond = self.sdmxgen is None\n        cond = cond or self.mol != mol\n",
-               "        old_mol, self.mol = self.mol, mol\n        cond = self.sdmxgen is None\n        cond = cond or self.mol != mol\n",
+               "        cond = self.sdmxgen is None\n        cond = cond or self._mol_changed(mol)\n",
+               "        old_mol, self.mol = self.mol, mol\n        cond = self.sdmxgen is None\n        cond = cond or self._mol_changed(mol)\n",
                expect="reinit"),
         # --- round 9 -----------------------------------------------------------------------------------
         Mutant("saved l=0 projections scaled through a plain alias", PLANS,
@@ -1899,6 +2155,17 @@ def mutants(tree):
                "        for i0 in range(0, N, dn):\n            i1 = min(N, i0 + dn)\n",
                "        nb = (N + dn - 1) // dn\n        w = N // max(1, nb)\n        for b in range(nb):\n            i0 = b * w\n            i1 = (b + 1) * w\n",
                expect="chunk-loop"),
+        # --- round 10: reverting the two repairs ---------------------------------------------------------
+        Mutant("occ-derivative pass no longer restores the plan's spin-0 caches", GEN,
+               "        self.plan._cached_p_i_qg[0], self.plan._cached_l1_data[0] = plan_cache\n", "", expect="cache-clobber"),
+        Mutant("nldf generator keyed on the identity of the grids only", NUMINT,
+               "        if indexer is not grids.grids_indexer or coords is not grids.coords:\n            return True\n", "",
+               expect="stale-identity"),
+        Mutant("molecule compared by identity only", NUMINT,
+               "        for old, new in zip(self._mol_data, new_data):\n            if not np.array_equal(old, new):\n                return True\n",
+               "", expect="stale-identity"),
+        Mutant("molecule snapshot compared without its _env component", NUMINT,
+               "        new_data = (mol._atm, mol._bas, mol._env)\n", "        new_data = (mol._atm, mol._bas)\n", expect="reinit"),
         Mutant("chunk result overwritten", XE, "res[i0:i1] += k.dot(self.alpha)", "res[i0:i1] = k.dot(self.alpha)",
                expect="chunk-loop"),
         Mutant("chunk loop skips the first chunk", XE, "for i0 in range(0, N, dn):", "for i0 in range(dn, N, dn):",
@@ -1911,7 +2178,7 @@ def _super_first(text):
     if i < 0:
         return None
     head, tail = text[:i], text[i:]
-    a = "        cond = self.nldfgen is None\n"
+    a = "        self._initialize_nldf_generator(mol, grids, nspin)\n"
     b = "        super().initialize_feature_generators(mol, grids, nspin)\n"
     if a not in tail or b not in tail:
         return None
@@ -1932,11 +2199,10 @@ def _persistent_dbuf(text):
 
 
 def _inline_cond_without_grids(text):
-    a = ("        cond = self.nldfgen is None\n        cond = cond or self.grids != grids\n        cond = cond or self.mol != mol\n"
-         "        cond = cond or self.nldfgen.plan.nspin != nspin\n        if cond:\n")
+    a = "        if self._nldfgen_is_stale(mol, grids, nspin):\n"
     if a not in text:
         return None
-    return text.replace(a, "        if self.nldfgen is None or self.mol != mol or not (self.nldfgen.plan.nspin == nspin):\n", 1)
+    return text.replace(a, "        if self.nldfgen is None or self._mol_changed(mol) or not (self.nldfgen.plan.nspin == nspin):\n", 1)
 
 
 def _memo_kctrl(text):
